@@ -196,8 +196,8 @@ theorem processSpan_remembered (s : St) (o : Nat) (via : Via) (tid : Nat) (d : D
       · rw [ht, h1] at hn; cases hn
       · simp [ht, h2]
 
-theorem remembered_step (fixed : Bool) (c : Cfg) (s : St) (op : Op) (tid : Nat) (d : Dec)
-    (h : Remembered s tid d) : Remembered (step fixed c s op).1 tid d := by
+theorem remembered_step (fixed : Bool) (s : St) (op : Op) (tid : Nat) (d : Dec)
+    (h : Remembered s tid d) : Remembered (step fixed s op).1 tid d := by
   cases op with
   | stress on => exact h
   | span via owner e hh =>
@@ -210,12 +210,24 @@ theorem remembered_step (fixed : Bool) (c : Cfg) (s : St) (op : Op) (tid : Nat) 
       · exact processSpan_remembered _ _ _ _ _ h
       · exact h
   | flush tx => cases tx <;> exact h
+  | reload n => exact h
+  | decide t k r =>
+    simp only [step, decideStep]
+    split
+    · exact h
+    · rename_i hc
+      refine ⟨?_, h.2⟩
+      simp only []
+      rw [AList.get_put]
+      by_cases htt : t = tid
+      · subst htt; simp [h.1] at hc
+      · simp [htt, h.1]
 
-theorem remembered_run (fixed : Bool) (c : Cfg) (ops : List Op) (s : St) (tid : Nat) (d : Dec)
-    (h : Remembered s tid d) : Remembered (runFrom fixed c s ops) tid d := by
+theorem remembered_run (fixed : Bool) (ops : List Op) (s : St) (tid : Nat) (d : Dec)
+    (h : Remembered s tid d) : Remembered (runFrom fixed s ops) tid d := by
   induction ops generalizing s with
   | nil => exact h
-  | cons op ops ih => exact ih _ (remembered_step fixed c s op tid d h)
+  | cons op ops ih => exact ih _ (remembered_step fixed s op tid d h)
 
 /-- A trace first seen while stress relief is active (no decision yet, not buffered) has its
 decision — the deterministic rule's — remembered from then on. -/
@@ -225,34 +237,47 @@ theorem stress_records (fixed : Bool) (c : Cfg) (s : St) (via : Via) (owner : Op
     Remembered (spanStep fixed c s via owner e h).1 e.c.tid (recordOf (hashRule c h)) :=
   ⟨(stress_deterministic fixed c s via owner e h hst hp ht hnew).2, by rw [spanStep_live]; exact hlive⟩
 
-/-- **stress_remembered** — once a trace has been decided under stress, then after *any* further
-history (relief ending and starting again, other traffic, worker progress, dispatches):
-(a) a span of the trace arriving while stressed is kept iff the recorded decision says keep;
+theorem rate_keptStep (fixed : Bool) (s : St) (owner : Option Nat) (e0 e1 : Ev) (sent' : AList Nat Dec) :
+    ((keptStep fixed s owner e0 e1 sent').1.store s.next).rate = e1.rate := by
+  cases fixed <;> cases owner <;> simp [keptStep, upd]
+
+/-- **stress_remembered** — once a trace has a recorded decision `d` and is not buffered (it was
+decided under stress, `stress_records`, or by the normal sampler before), then after *any* further
+history (relief ending and starting again, the stress sampling rate being reloaded, other traffic,
+worker progress, dispatches) and *whatever the sampling rate `c'` in force then*:
+(a) a span of the trace arriving while stressed is kept iff the recorded decision says keep, and
+    is sent with its own sample rate times the **recorded** rate;
 (b) a late span of the trace that went through the collector's queue (relief has ended) is sent
-upstream iff the recorded decision says keep, and is never put into the trace buffer. -/
-theorem stress_remembered (fixed : Bool) (c : Cfg) (s : St) (tid : Nat) (d : Dec)
+    upstream iff the recorded decision says keep, with its own sample rate times the recorded rate,
+    and is never put into the trace buffer. -/
+theorem stress_remembered (fixed : Bool) (s : St) (tid : Nat) (d : Dec)
     (hrec : Remembered s tid d) (ops : List Op) :
-    (∀ via owner e h, e.c.tid = tid → tid ≠ 0 → e.c.probe ≠ some true →
-        (runFrom fixed c s ops).stressed = true →
-        sentUp (spanStep fixed c (runFrom fixed c s ops) via owner e h).2 = d.keep) ∧
-    (∀ o via, ((runFrom fixed c s ops).store o).c.tid = tid →
-        sentUp (processSpan (runFrom fixed c s ops) o via).2 = d.keep ∧
-        (processSpan (runFrom fixed c s ops) o via).1.live = (runFrom fixed c s ops).live) := by
-  have hr := remembered_run fixed c ops s tid d hrec
-  generalize runFrom fixed c s ops = s' at hr
+    (∀ c' via owner e h, e.c.tid = tid → tid ≠ 0 → e.c.probe ≠ some true →
+        (runFrom fixed s ops).stressed = true →
+        sentUp (spanStep fixed c' (runFrom fixed s ops) via owner e h).2 = d.keep ∧
+        (d.keep = true →
+          ((spanStep fixed c' (runFrom fixed s ops) via owner e h).1.store (runFrom fixed s ops).next).rate
+            = mergeRate e.rate d.rate)) ∧
+    (∀ o via, ((runFrom fixed s ops).store o).c.tid = tid →
+        sentUp (processSpan (runFrom fixed s ops) o via).2 = d.keep ∧
+        (d.keep = true → ((processSpan (runFrom fixed s ops) o via).1.store o).rate
+            = mergeRate ((runFrom fixed s ops).store o).rate d.rate) ∧
+        (processSpan (runFrom fixed s ops) o via).1.live = (runFrom fixed s ops).live) := by
+  have hr := remembered_run fixed ops s tid d hrec
+  generalize runFrom fixed s ops = s' at hr
   obtain ⟨h1, h2⟩ := hr
   constructor
-  · intro via owner e h het ht hp hst
+  · intro c' via owner e h het ht hp hst
     subst het
     unfold spanStep
     simp only [hp, ht, hst, if_false, if_true, immediate_of_some h1]
     cases hk : d.keep
     · simp [sentUp]
-    · simp [sentUp_keptStep]
+    · simp [sentUp_keptStep, rate_keptStep]
   · intro o via het
     unfold processSpan
     simp only [het, h1, h2]
-    cases hk : d.keep <;> simp [sentUp]
+    cases hk : d.keep <;> simp [sentUp, upd]
 
 /-! ## stress_delivery: definitions -/
 
@@ -444,7 +469,7 @@ structure Inv (strict : Bool) (s : St) : Prop where
   wsid : ∀ r ∈ s.wire, ∀ ev ∈ r.evs, ev.c.sid < s.next
   wire : ∀ r ∈ s.wire, WireOK strict s.kept r
 
-theorem inv_init (strict : Bool) : Inv strict init := by
+theorem inv_init (strict : Bool) (c : Cfg) : Inv strict (init c) := by
   refine ⟨allB_nil _, allB_nil _, ?_, ?_, ?_, ?_, ?_, ?_⟩ <;> intro x hx <;> cases hx
 
 theorem keyOf_congr {a b : Ev} (h : a.c = b.c) : keyOf a = keyOf b := by simp [keyOf, h]
@@ -852,24 +877,30 @@ theorem inv_flushPeer {strict : Bool} {s : St} (hI : Inv strict s) : Inv strict 
 only on the owning node and without the claim about the probe marker. -/
 def Mode (fixed strict : Bool) (op : Op) : Prop := fixed = true ∨ (strict = false ∧ OwnedOp op)
 
-theorem inv_step {strict : Bool} (fixed : Bool) (c : Cfg) {s : St} (hI : Inv strict s) (op : Op)
-    (hv : ValidOp op) (hm : Mode fixed strict op) : Inv strict (step fixed c s op).1 := by
+theorem inv_step {strict : Bool} (fixed : Bool) {s : St} (hI : Inv strict s) (op : Op)
+    (hv : ValidOp op) (hm : Mode fixed strict op) : Inv strict (step fixed s op).1 := by
   cases op with
   | stress on => exact ⟨hI.up, hI.peer, hI.qi, hI.qp, hI.kept, hI.once, hI.wsid, hI.wire⟩
-  | span via owner e h => exact inv_spanStep fixed c hI via owner e h hv hm
+  | span via owner e h => exact inv_spanStep fixed s.cfg hI via owner e h hv hm
   | work => exact inv_workStep hI
   | flush tx =>
     cases tx
     · exact inv_flushUp hI
     · exact inv_flushPeer hI
+  | reload n => exact ⟨hI.up, hI.peer, hI.qi, hI.qp, hI.kept, hI.once, hI.wsid, hI.wire⟩
+  | decide t k r =>
+    simp only [step, decideStep]
+    split
+    · exact hI
+    · exact ⟨hI.up, hI.peer, hI.qi, hI.qp, hI.kept, hI.once, hI.wsid, hI.wire⟩
 
-theorem inv_runFrom {strict : Bool} (fixed : Bool) (c : Cfg) (ops : List Op) (s : St) (hI : Inv strict s)
+theorem inv_runFrom {strict : Bool} (fixed : Bool) (ops : List Op) (s : St) (hI : Inv strict s)
     (hv : ∀ op ∈ ops, ValidOp op) (hm : ∀ op ∈ ops, Mode fixed strict op) :
-    Inv strict (runFrom fixed c s ops) := by
+    Inv strict (runFrom fixed s ops) := by
   induction ops generalizing s with
   | nil => exact hI
   | cons op ops ih =>
-    exact ih _ (inv_step fixed c hI op (hv op (List.mem_cons_self ..)) (hm op (List.mem_cons_self ..)))
+    exact ih _ (inv_step fixed hI op (hv op (List.mem_cons_self ..)) (hm op (List.mem_cons_self ..)))
       (fun o ho => hv o (List.mem_cons_of_mem _ ho)) (fun o ho => hm o (List.mem_cons_of_mem _ ho))
 
 /-! ## stress_delivery: statement, proof for the repaired router, refutation for the router as it is -/
@@ -924,10 +955,10 @@ theorem delivered_of_inv {strict : Bool} {s : St} (hI : Inv strict s) (hup : s.u
     exact (hI.wire r hr hd ev hev).1 hs
 
 theorem run_append (fixed : Bool) (c : Cfg) (ops₁ ops₂ : List Op) :
-    run fixed c (ops₁ ++ ops₂) = runFrom fixed c (run fixed c ops₁) ops₂ := by
+    run fixed c (ops₁ ++ ops₂) = runFrom fixed (run fixed c ops₁) ops₂ := by
   simp [run, runFrom, List.foldl_append]
 
-theorem up_after_drain (fixed : Bool) (c : Cfg) (s : St) : (runFrom fixed c s drain).up = [] := by
+theorem up_after_drain (fixed : Bool) (s : St) : (runFrom fixed s drain).up = [] := by
   simp [runFrom, drain, step, flushStep]
 
 theorem validOp_drain : ∀ op ∈ drain, ValidOp op := by
@@ -945,8 +976,8 @@ kept span (`fixed = true`, the proposed repair). -/
 theorem stress_delivery : FullStatement true := by
   intro c ops hv
   rw [run_append]
-  refine delivered_of_inv ?_ (up_after_drain _ _ _)
-  refine inv_runFrom true c drain _ (inv_runFrom true c ops init (inv_init true) hv ?_) validOp_drain ?_
+  refine delivered_of_inv ?_ (up_after_drain _ _)
+  refine inv_runFrom true drain _ (inv_runFrom true ops (init c) (inv_init true c) hv ?_) validOp_drain ?_
   · exact fun _ _ => Or.inl rfl
   · exact fun _ _ => Or.inl rfl
 
@@ -959,8 +990,8 @@ probe marker (refuted by `stress_delivery_refuted_owner`) and every non-owning n
 theorem stress_delivery_partial (c : Cfg) (ops : List Op) (hv : ValidOps ops)
     (hown : ∀ op ∈ ops, OwnedOp op) : Delivered false (run false c (ops ++ drain)) := by
   rw [run_append]
-  refine delivered_of_inv ?_ (up_after_drain _ _ _)
-  refine inv_runFrom false c drain _ (inv_runFrom false c ops init (inv_init false) hv ?_) validOp_drain ?_
+  refine delivered_of_inv ?_ (up_after_drain _ _)
+  refine inv_runFrom false drain _ (inv_runFrom false ops (init c) (inv_init false c) hv ?_) validOp_drain ?_
   · exact fun op hop => Or.inr ⟨rfl, hown op hop⟩
   · exact fun op hop => Or.inr ⟨rfl, ownedOp_drain op hop⟩
 
@@ -1021,12 +1052,19 @@ example : ((run true ⟨1⟩ (witness ++ drain)).wire.map (fun r => (r.tx, r.des
 example : Delivered true (run true ⟨1⟩ (witness ++ drain)) := by decide
 example : (run true ⟨1⟩ (witness ++ drain)).kept.length = 1 := by decide
 -- the deterministic rule drops and keeps: rate 2, hashes above / below MaxUint64 / 2
-example : sentUp (spanStep false ⟨2⟩ { init with stressed := true } .incoming none wSpan maxU64).2 = false := by decide
-example : sentUp (spanStep false ⟨2⟩ { init with stressed := true } .incoming none wSpan 5).2 = true := by decide
+example : sentUp (spanStep false ⟨2⟩ { init ⟨2⟩ with stressed := true } .incoming none wSpan maxU64).2 = false := by decide
+example : sentUp (spanStep false ⟨2⟩ { init ⟨2⟩ with stressed := true } .incoming none wSpan 5).2 = true := by decide
 -- remembered after relief ends: a late span of the kept trace goes through the worker and is sent
 example : (run false ⟨2⟩ [.stress true, .span .incoming none wSpan 5, .stress false,
     .span .incoming none wSpan 5, .work]).up.map (·.2) = [[0, 1]] := by decide
 example : (run false ⟨2⟩ [.stress true, .span .incoming none wSpan maxU64, .stress false,
     .span .incoming none wSpan maxU64, .work]).up = [] := by decide
+
+-- the remembered rate is used: kept at 1-in-2, rate reloaded to 7 while stressed, the trace's next
+-- span still goes out with 2; a trace the normal sampler kept at 10 gets 10 under stress (rate 3)
+example : ((run true ⟨2⟩ [.stress true, .span .incoming none wSpan 5, .reload 7,
+    .span .incoming none wSpan 5]).store 1).rate = 2 := by decide
+example : ((run true ⟨3⟩ [.decide 1 true 10, .stress true, .span .incoming none wSpan 5]).store 0).rate = 10 := by
+  decide
 
 end Refinery.Props.C16
